@@ -71,11 +71,21 @@ info('C03',
       'MPS/MPO level aliasing: bounded only'],
      [A_BUILD], configs=BOTH)
 info('C04',
-     'P: the pure-Python fallback _make_stride (both styles) against its "Equivalent to" specification (shared with C06). '
+     'P: one specification, two implementations: the pure-Python fallback _make_stride (both styles; shared with C06) and, cut out '
+     'of the current tenpy/linalg/_npc_helper.pyx on every run by a mechanical line-based extraction (pyvc/pyx.py: C types, cdef '
+     'declarations, casts, decorators dropped; cdivision(True) honoured by C semantics of % and //, wraparound(False) by treating '
+     'negative indices as errors), the compiled kernels _make_stride (both styles), _iter_common_sorted_push (same sound/ordered/'
+     'complete clauses as np_conserved._iter_common_sorted, proved under C01), _make_valid_charges_1D (C remainder + correction '
+     '== Python/numpy modulo; nonlinear lemma proved by cvc5 in the same run), _map_blocks (blocks tile the result; monotonicity '
+     'lemma proved by induction in the same run). A failing obligation starts a witness hunt on the freshly compiled extension. '
      'B (bounded, not proof): every operation program of C01 executed with identical seeds in two interpreter processes '
      '(extension rebuilt from the current _npc_helper.pyx / TENPY_NO_CYTHON=1), results compared field by field; both processes '
      'report which implementation is active. The compiled side of C01/C02/C03/C05/C06 is likewise always a fresh build.',
-     ['no deductive statement about Cython code (mechanical extraction of the Python-like kernels not built)',
+     ['Cython kernels with pointers, BLAS calls, typed 2D buffers or numpy C-API calls (_tensordot_worker, _inner_worker, '
+      '_combine_legs_worker, _split_legs_worker, _sliced_copy, Array_itranspose_fast, _find_row_differences): not extractable / '
+      'outside the subset - bounded differential only',
+      'assumed for the extracted kernels: Cython compiles the Python-like body with Python semantics; no C integer overflow; '
+      'memoryview element access is plain element access; _np_empty_1D allocates n elements; vector.push_back appends a copy',
       '"a source edit changes behaviour only through a rebuild" is a statement about the build: the check always rebuilds from '
       'the current tree, which is all it can do about it',
       'algorithm-level equivalence (DMRG/TEBD in both configurations): not compared'],
